@@ -47,7 +47,7 @@ def families_e3(prop, tier, seed):
     return fams
 
 
-def run_e3(prop, tier, seed, families, shells=SHELLS, props=None):
+def run_e3(prop, tier, seed, families, shells=SHELLS, props=None, analyse=None):
     from . import e3, autosmt
     rep = Report(prop, tier, seed, 'translation_validation')
     common.ensure_built()
@@ -56,8 +56,11 @@ def run_e3(prop, tier, seed, families, shells=SHELLS, props=None):
     for name, gs in families:
         fam_sizes[name] = len(gs)
         for g in gs:
-            jobs.append((g, shells, props or (prop,)))
-    results = pool_map(e3.analyse, jobs)
+            if analyse is None:
+                jobs.append((g, shells, props or (prop,)))
+            else:
+                jobs.append((g, shells))
+    results = pool_map(analyse or e3.analyse, jobs)
     stats = autosmt.Stats()
     status = {}
     programs = 0
@@ -186,9 +189,87 @@ def check_C03(tier, seed):
     return run_e3('C03', tier, seed, families_e3('C03', tier, seed), shells=('bash', 'zsh'))
 
 
+def family_c11():
+    """NAME in {X, PATH, DIRECTORY} x every subset of {plain, @bash, @fish, @zsh, @pwsh} definitions with
+    pairwise distinct command texts x three reference positions. Finite, enumerated exhaustively."""
+    import itertools
+    out = []
+    kinds = [None, 'bash', 'fish', 'zsh', 'pwsh']
+    for name in ('X', 'PATH', 'DIRECTORY'):
+        for r in range(0, 6):
+            for subset in itertools.combinations(kinds, r):
+                defs = [(name, sh, gram.Cmd('echo %s_%s' % (name.lower(), sh or 'plain'))) for sh in subset]
+                out.append({'command': 'cmd', 'variants': [gram.Seq(gram.Lit('a'), gram.Ref(name), gram.Lit('z'))],
+                            'defs': list(defs)})
+                out.append({'command': 'cmd', 'variants': [gram.Seq(gram.Sub(gram.Lit('p='), gram.Ref(name)), gram.Lit('z'))],
+                            'defs': list(defs)})
+                out.append({'command': 'cmd', 'variants': [gram.Seq(gram.Ref('W'), gram.Lit('z'))],
+                            'defs': [('W', None, gram.Alt(gram.Seq(gram.Lit('x'), gram.Ref(name)), gram.Lit('y')))] + list(defs)})
+    return out
+
+
+def check_C11(tier, seed):
+    fam = family_c11()
+    rep = run_e3('C11', tier, seed, [('definition-subsets', fam)], props=('C11',))
+    rep.coverage['exhaustive'] = True
+    rep.assumptions.append('the dimension the property is about (which definitions exist) is enumerated exhaustively (3 names x 32 subsets x 3 positions x 4 shells); '
+                           'the solver decides that the chosen command sits at exactly the right places for every word sequence')
+    return rep
+
+
+def family_c09(tier, seed):
+    L, S, A, F, Sub, Ref, Opt, Many = gram.Lit, gram.Seq, gram.Alt, gram.Fb, gram.Sub, gram.Ref, gram.Opt, gram.Many
+    out = []
+    tails = [L('a'), L('b'), S(L('a'), L('b')), Opt(L('a')), Many(L('b'))]
+    heads = ['foo', 'fo']
+    # the same literal at the start of two || branches / | branches / call variants
+    for h in heads:
+        for t1 in tails:
+            for t2 in tails:
+                if t1 == t2:
+                    continue
+                out.append(gram.mk('cmd', F(S(L(h), t1), S(L(h), t2))))
+                out.append(gram.mk('cmd', A(S(L(h), t1), S(L(h), t2))))
+                out.append(gram.mk('cmd', S(L('p'), F(S(L(h), t1), L('q'), S(L(h), t2)))))
+                out.append({'command': 'cmd', 'variants': [S(L(h), t1), S(L(h), t2)], 'defs': []})
+                out.append(gram.mk('cmd', F(Ref('P'), Ref('Q')), [('P', None, S(L(h), t1)), ('Q', None, S(L(h), t2))]))
+        out.append(gram.mk('cmd', F(L(h), S(L(h), L('b')))))
+        out.append(gram.mk('cmd', Many(F(L(h), S(L(h), L('b'))))))
+    # within-word expressions repeated with permuted alternatives / through different definitions
+    vals = [('a', 'b'), ('a', 'ab'), ('x', 'y', 'z')]
+    for vs in vals:
+        fw = Sub(L('--o='), A(*[L(v) for v in vs]))
+        bw = Sub(L('--o='), A(*[L(v) for v in reversed(vs)]))
+        for (w1, w2) in ((fw, bw), (fw, fw)):
+            out.append(gram.mk('cmd', A(S(w1, L('p')), S(w2, L('q')))))
+            out.append(gram.mk('cmd', F(S(w1, L('p')), S(w2, L('q')))))
+            out.append({'command': 'cmd', 'variants': [S(w1, L('p')), S(w2, L('q'))], 'defs': []})
+            out.append(gram.mk('cmd', A(S(Ref('P'), L('p')), S(Ref('Q'), L('q'))), [('P', None, w1), ('Q', None, w2)]))
+        out.append(gram.mk('cmd', A(S(Sub(L('--o='), Ref('V')), L('p')), S(Sub(L('--o='), Ref('W')), L('q'))),
+                           [('V', None, A(*[L(v) for v in vs])), ('W', None, A(*[L(v) for v in reversed(vs)]))]))
+        # same words, different item structure: a[b] vs (a|ab)
+    out.append(gram.mk('cmd', A(S(Sub(L('k='), L('a'), Opt(L('b'))) if False else Sub(L('k='), A(L('a'), L('ab'))), L('p')),
+                                 S(Sub(L('k='), A(L('ab'), L('a'))), L('q')))))
+    # random grammars rich in ||
+    out.extend(gram.random_family(seed + 31, 60 if tier == 'quick' else 600, allow_descr=False))
+    small = gram.exhaustive_family(3 if tier == 'quick' else 4)
+    out.extend(small)
+    return out
+
+
+def check_C09(tier, seed):
+    from . import e3
+    fam = family_c09(tier, seed)
+    rep = run_e3('C09', tier, seed, [('c09-shapes+random+exhaustive', fam)], shells=('bash', 'zsh'), analyse=e3.analyse_c09)
+    rep.coverage['parts'] = '(i) per state of every minimised automaton: same literal text / equal-language within-word items with different targets (z3 string-regex xor-emptiness, unbounded word length); (ii) level-erased bisimulation between G and G[||:=|] (automata as NFAs, determinised). Part (iii), execution in bash, is covered by the E2 checks.'
+    return rep
+
+
 CHECKS = {
+    'C09': check_C09,
     'C02': check_C02,
     'C03': check_C03,
+    'C11': check_C11,
 }
 
 
